@@ -109,7 +109,10 @@ class PossibleMatch:
             self._add_new_open_atoms(open_atoms)
             self._log_prob = np.log(initial_prob)
             self.add_handled_atoms(substructure)
-            self._element_weights[self._active_element] += pattern_mw
+            # An end group that starts a stochastic object does not count towards
+            # the molecular weight of that object (as in Stochastic.generate).
+            if isinstance(self._big.elements[self._active_element], SmilesToken):
+                self._element_weights[self._active_element] += pattern_mw
 
         # Always pop SmilesToken, but not stochastic elements
         if isinstance(self._big.elements[self._active_element], SmilesToken):
